@@ -7,23 +7,26 @@
 #include <cppcms/http_file.h>
 
 namespace flt {
-struct Log { std::string events; std::string raw; int main_headers,main_ready,on_error,on_end; Log():main_headers(0),main_ready(0),on_error(0),on_end(0){} };
+struct Log { std::string events; std::string raw; std::string seen; /* what a reading filter read from each part: hex(name)=hex(data); */ int main_headers,main_ready,on_error,on_end; Log():main_headers(0),main_ready(0),on_error(0),on_end(0){} };
 static std::mutex g_mx; static std::map<std::string,Log> g_log;
 inline Log get_log(const std::string &id){ std::lock_guard<std::mutex> g(g_mx); return g_log[id]; }
 inline void clear_logs(){ std::lock_guard<std::mutex> g(g_mx); g_log.clear(); }
-struct ReqData { std::string id,abort_at; int abort_code; bool throw_std; ReqData():abort_code(0),throw_std(false){} };
+struct ReqData { std::string id,abort_at,read_mode; int abort_code; bool throw_std; ReqData():abort_code(0),throw_std(false){} };
 static void maybe_abort(ReqData *d,const char *where){ if(d&&d->abort_at==where){ if(d->throw_std) throw std::runtime_error("filter failure"); throw cppcms::http::abort_upload(d->abort_code?d->abort_code:502); } }
 template<class Base> class filter_base : public cppcms::application, public Base { public: filter_base(cppcms::service &s):cppcms::application(s){}
 	ReqData *data(){ return context().template get_specific<ReqData>(); }
 	void ev(const std::string &e){ ReqData *d=data(); if(!d) return; std::lock_guard<std::mutex> g(g_mx); g_log[d->id].events+=e+";"; }
 	void on_end_of_content(){ ReqData *d=data(); { std::lock_guard<std::mutex> g(g_mx); if(d) g_log[d->id].on_end++; } ev("E"); maybe_abort(d,"on_end_of_content"); }
 	void on_error(){ ReqData *d=data(); { std::lock_guard<std::mutex> g(g_mx); if(d) g_log[d->id].on_error++; } ev("X"); }
-	void main(std::string){ std::string id=request().get("id"); if(!request().is_ready()){ ReqData *d=new ReqData(); d->id=id; d->abort_at=request().get("abort"); d->abort_code=atoi(request().get("code").c_str()); d->throw_std=request().get("std")=="1"; context().reset_specific<ReqData>(d); { std::lock_guard<std::mutex> g(g_mx); g_log[id].main_headers++; g_log[id].events+="H;"; }
+	void main(std::string){ std::string id=request().get("id"); if(!request().is_ready()){ ReqData *d=new ReqData(); d->id=id; d->abort_at=request().get("abort"); d->abort_code=atoi(request().get("code").c_str()); d->throw_std=request().get("std")=="1"; d->read_mode=request().get("read"); context().reset_specific<ReqData>(d); { std::lock_guard<std::mutex> g(g_mx); g_log[id].main_headers++; g_log[id].events+="H;"; }
 			std::string v; if((v=request().get("cl_limit"))!="") request().limits().content_length_limit(atoll(v.c_str())); if((v=request().get("mp_limit"))!="") request().limits().multipart_form_data_limit(atoll(v.c_str())); if((v=request().get("mem_limit"))!="") request().limits().file_in_memory_limit(atoll(v.c_str())); if((v=request().get("setbuf"))!="") request().setbuf(atoi(v.c_str()));
 			maybe_abort(d,"on_headers_ready"); request().set_content_filter(*this); return; }
 		{ std::lock_guard<std::mutex> g(g_mx); g_log[id].main_ready++; g_log[id].events+="M;"; } echo::g_main_calls++; response().set_plain_text_header(); if(request().get("throw")=="main") throw std::runtime_error("handler failure"); echo::dump_request(request(),response().out()); } };
 class mfilter : public filter_base<cppcms::http::multipart_filter> { public: mfilter(cppcms::service &s):filter_base<cppcms::http::multipart_filter>(s){}
-	void on_new_file(cppcms::http::file &f){ ev("N:"+vf::hex(f.name())); maybe_abort(data(),"on_new_file"); } void on_upload_progress(cppcms::http::file &f){ ev("P:"+std::to_string((long)f.size())); maybe_abort(data(),"on_upload_progress"); } void on_data_ready(cppcms::http::file &f){ ev("R:"+vf::hex(f.name())+":"+std::to_string((long)f.size())); maybe_abort(data(),"on_data_ready"); } };
+	void on_new_file(cppcms::http::file &f){ ev("N:"+vf::hex(f.name())); maybe_abort(data(),"on_new_file"); } void on_upload_progress(cppcms::http::file &f){ ev("P:"+std::to_string((long)f.size())); maybe_abort(data(),"on_upload_progress"); } void on_data_ready(cppcms::http::file &f){ ev("R:"+vf::hex(f.name())+":"+std::to_string((long)f.size())); ReqData *d=data();
+		// a filter may inspect the completed part through file::data() (read=full: all of it, read=peek: the first 3 bytes) - and does not rewind
+		if(d&&(d->read_mode=="full"||d->read_mode=="peek")){ std::istream &in=f.data(); std::string got; char c; size_t lim= d->read_mode=="peek"?3:(size_t)-1; while(got.size()<lim&&in.get(c)) got+=c; in.clear(); std::lock_guard<std::mutex> g(g_mx); g_log[d->id].seen+=vf::hex(f.name())+"="+vf::hex(got)+";"; }
+		maybe_abort(d,"on_data_ready"); } };
 class rfilter : public filter_base<cppcms::http::raw_content_filter> { public: rfilter(cppcms::service &s):filter_base<cppcms::http::raw_content_filter>(s){}
 	void on_data_chunk(void const *p,size_t n){ ReqData *d=data(); if(d){ std::lock_guard<std::mutex> g(g_mx); g_log[d->id].raw.append((const char*)p,n); g_log[d->id].events+="D"+std::to_string(n)+";"; } maybe_abort(d,"on_data_chunk"); } };
 inline void mount_filters(cppcms::service &srv){ /* content filters are honoured for asynchronous applications only (http_context.cpp:on_headers_ready) */ srv.applications_pool().mount(cppcms::create_pool<mfilter>(),cppcms::mount_point("/mfilter"),cppcms::app::content_filter|cppcms::app::asynchronous); srv.applications_pool().mount(cppcms::create_pool<rfilter>(),cppcms::mount_point("/rfilter"),cppcms::app::content_filter|cppcms::app::asynchronous); srv.applications_pool().mount(cppcms::create_pool<mfilter>(),cppcms::mount_point("/amfilter"),cppcms::app::content_filter|cppcms::app::asynchronous); }
